@@ -19,6 +19,8 @@ var Harnesses = map[string]func(){
 	"verifh/hparse.SchemaLimit":       hparse.SchemaLimit,
 	"verifh/hval.Smoke":               hval.Smoke,
 	"verifh/hval.ValidateRef":         hval.ValidateRef,
+	"verifh/hval.Links":               hval.Links,
+	"verifh/hval.Compose":             hval.Compose,
 	"verifh/hval.Deterministic":       hval.Deterministic,
 	"verifh/hval.SchemaReadOnly":      hval.SchemaReadOnly,
 	"verifh/hval.SplitGapSelfTest":    hval.SplitGapSelfTest,
